@@ -23,7 +23,7 @@ namespace avel {
         //=================================================
 
         explicit Denominator(std::int32_t d):
-            Denominator(d, max(bit_width(abs(d) - 1), std::int32_t(1))) {}
+            Denominator(d, max(bit_width(std::int32_t(std::uint32_t(abs(d)) - 1)), std::int32_t(1))) {}
 
     private:
 
